@@ -489,3 +489,117 @@ pub async fn handle(w: W, mut req: Request) -> Result<Response<BoxBody>, SvcErr>
     };
     rb.message_body(body).map_err(|_| SvcErr(500, idx))
 }
+
+// ---------------------------------------------------------------------------------------------
+// JSON (de)serialisation of programs, for replay files and evidence samples.
+
+use serde_json::{json, Value};
+
+impl Prog {
+    pub fn to_json(&self) -> Value {
+        let read = match &self.read {
+            ReadMode::Ignore => json!("ignore"),
+            ReadMode::All => json!("all"),
+            ReadMode::Chunks(k) => json!({"chunks": k}),
+            ReadMode::Hold => json!("hold"),
+            ReadMode::AfterRespond => json!("after_respond"),
+            ReadMode::DropFirst => json!("drop_first"),
+        };
+        let kind = match &self.kind {
+            BodyKind::None => json!("none"),
+            BodyKind::Bytes => json!("bytes"),
+            BodyKind::SizedStream(n) => json!({"sized_stream": n}),
+            BodyKind::BodyStream => json!("body_stream"),
+            BodyKind::CustomStream => json!("custom_stream"),
+            BodyKind::CustomSized(n) => json!({"custom_sized": n}),
+        };
+        let steps: Vec<Value> = self
+            .steps
+            .iter()
+            .map(|s| match s {
+                // contents are a deterministic function of (length, request index): keep replays small
+                BStep::Data(d) => json!({"data": d.len(), "fill": d.first().copied().unwrap_or(0)}),
+                BStep::Wait(g) => json!({"wait": g}),
+                BStep::Err => json!("err"),
+            })
+            .collect();
+        json!({
+            "pre_gate": self.pre_gate, "read": read, "read_gate": self.read_gate, "post_gate": self.post_gate,
+            "status": self.status, "headers": self.headers,
+            "conn": match self.conn { Conn::Default => "default", Conn::Close => "close", Conn::KeepAlive => "keep-alive" },
+            "no_chunking": self.no_chunking, "kind": kind, "steps": steps, "fail": self.fail,
+        })
+    }
+
+    pub fn from_json(v: &Value) -> Prog {
+        let og = |k: &str| v[k].as_u64().map(|x| x as usize);
+        let read = match &v["read"] {
+            Value::String(s) => match s.as_str() {
+                "ignore" => ReadMode::Ignore,
+                "hold" => ReadMode::Hold,
+                "after_respond" => ReadMode::AfterRespond,
+                "drop_first" => ReadMode::DropFirst,
+                _ => ReadMode::All,
+            },
+            o => ReadMode::Chunks(o["chunks"].as_u64().unwrap_or(1) as usize),
+        };
+        let kind = match &v["kind"] {
+            Value::String(s) => match s.as_str() {
+                "none" => BodyKind::None,
+                "body_stream" => BodyKind::BodyStream,
+                "custom_stream" => BodyKind::CustomStream,
+                _ => BodyKind::Bytes,
+            },
+            o => {
+                if let Some(n) = o["sized_stream"].as_u64() {
+                    BodyKind::SizedStream(n)
+                } else {
+                    BodyKind::CustomSized(o["custom_sized"].as_u64().unwrap_or(0))
+                }
+            }
+        };
+        let steps = v["steps"]
+            .as_array()
+            .map(|a| {
+                a.iter()
+                    .map(|s| {
+                        if s.as_str() == Some("err") {
+                            BStep::Err
+                        } else if let Some(g) = s["wait"].as_u64() {
+                            BStep::Wait(g as usize)
+                        } else {
+                            let n = s["data"].as_u64().unwrap_or(0) as usize;
+                            BStep::Data(fill_data(n, s["fill"].as_u64().unwrap_or(0) as u8))
+                        }
+                    })
+                    .collect()
+            })
+            .unwrap_or_default();
+        Prog {
+            pre_gate: og("pre_gate"),
+            read,
+            read_gate: og("read_gate"),
+            post_gate: og("post_gate"),
+            status: v["status"].as_u64().unwrap_or(200) as u16,
+            headers: v["headers"]
+                .as_array()
+                .map(|a| a.iter().map(|p| (p[0].as_str().unwrap_or("").to_string(), p[1].as_str().unwrap_or("").to_string())).collect())
+                .unwrap_or_default(),
+            conn: match v["conn"].as_str() {
+                Some("close") => Conn::Close,
+                Some("keep-alive") => Conn::KeepAlive,
+                _ => Conn::Default,
+            },
+            no_chunking: v["no_chunking"].as_u64(),
+            kind,
+            steps,
+            fail: v["fail"].as_bool().unwrap_or(false),
+        }
+    }
+}
+
+/// Body chunk contents: `n` bytes starting at `first`, cycling through a 251-byte alphabet, so a
+/// chunk is reconstructible from (length, first byte) and misplaced bytes are visible.
+pub fn fill_data(n: usize, first: u8) -> Vec<u8> {
+    (0..n).map(|i| ((first as usize + i) % 251) as u8).collect()
+}
